@@ -596,9 +596,14 @@ def synth_v0(desc):
         sig = [l for l in mf.lines if isinstance(l, V1.MatchScoreProp) and l.Attribute == attr]
         sig.sort(key=lambda l: l.TimeInBeats)
         # collapse equal neighbours (as MatchFile.time_signatures does), find the one in force at the first stored note
+        def same(a, b):
+            if attr == "timeSignature":
+                return (a.numerator, a.denominator) == (b.numerator, b.denominator)
+            return (a.fifths, a.mode or "major") == (b.fifths, b.mode or "major")     # mode None is written as major
+
         coll = []
         for l in sig:
-            if not coll or not (coll[-1].Value == l.Value):
+            if not coll or not same(coll[-1].Value, l.Value):
                 coll.append(l)
         sig_out = []
         for i, l in enumerate(coll):
@@ -1039,6 +1044,9 @@ def bars_covered(desc):
 
 
 def finding_key(desc, failure):
+    if failure.startswith("v0 "):
+        # "v0 <version>: <clause>: ..." -> the clause, not the version
+        return "C08/v0-" + failure.split(":")[1].strip()
     return "C08/" + failure.split(":")[0]
 
 
@@ -1131,6 +1139,13 @@ def corr_rt(desc, res, ev):
                                          str(dec4(x[0].group(9))), str(dec4(x[0].group(10)))), sn)
     ev.requests.append(req)
     ev.impl.append(impl)
+    # ---- the true positions in quarters the position theorems speak about (Score.quarters): Part.quarter_map of the
+    # saved score, counted from the point where its beat map is 0
+    sp = res["spart"]
+    ots = sorted(set([byid[x[0].group(1)]["t"] for x in sn] + [m[0] for m in pd["measures"]]))
+    q0 = float(sp.quarter_map(float(sp.inv_beat_map(0.0))))
+    ev.requests.append("quart %s %s" % (sct, W.lst(lambda t: "%d" % t, ots)))
+    ev.impl.append(("@approx", [float(sp.quarter_map(t)) - q0 for t in ots], 1e-9))
     # ---- signature lines
     for attr, src, namef in (("keySignature", sorted(pd["ks"]), lambda x: key_name(x[1], x[2])),
                              ("timeSignature", sorted(pd["ts"]), lambda x: "%d/%d" % (x[1], x[2]))):
